@@ -208,33 +208,67 @@ def w_gauss_inverse(ctx, rng, i):
 
 
 def w_errors(ctx, rng, i):
+    """the documented error table; every entry is presented with exactly ONE invalid argument while the container form of the
+    bits and all the other (valid) arguments vary, so that a check reachable only on some call paths is still exercised."""
     T.gv(sps=int(rng.choice([8, 16, 5])), R=1e9)
     sps = T.gv.sps
-    b = "0110" if i % 2 else [0, 1, 1, 0]
-    ctx.describe(sps=sps, i=i)
+    bits = rng.integers(0, 2, int(rng.choice([1, 4, 9])))
+    ctx.describe(sps=sps, i=i, bits=bits)
     big = float(rng.choice([48, -48, 50, -50, 48.0001, 1e3, -1e6]))
+    used = set()
+
+    def b():
+        if rng.integers(6) == 0:
+            used.add("prbs")
+            return D.PRBS(order=7, len=int(rng.integers(1, 20)))
+        f = FORMS[int(rng.integers(len(FORMS)))]
+        used.add(f)
+        return render(bits, f)
+
+    def ctxargs(shape, skip=()):
+        """valid values for the arguments that are not under test (sometimes left at their defaults)"""
+        kw = {}
+        if "Vout" not in skip and rng.integers(2):
+            kw["Vout"] = pick_level(rng) or 1
+        if "bias" not in skip and rng.integers(2):
+            kw["bias"] = pick_level(rng)
+        if shape.lower() == "gaussian":
+            if "T" not in skip and rng.integers(2):
+                kw["T"] = int(rng.integers(1, 2 * sps + 1))
+            if "m" not in skip and rng.integers(2):
+                kw["m"] = int(rng.integers(1, 5))
+            if "c" not in skip and rng.integers(2):
+                kw["c"] = float(rng.choice([0, 0.5, -2, 1]))
+        return kw
+
     with core.quiet():
-        for shape in ("nrz", "rz", "gaussian"):
-            ctx.raises("errors", ValueError, D.DAC, b, Vout=big, pulse_shape=shape)
-            ctx.raises("errors", ValueError, D.DAC, b, bias=big, pulse_shape=shape)
-            ctx.raises("errors", TypeError, D.DAC, b, Vout="5", pulse_shape=shape)
-            ctx.raises("errors", TypeError, D.DAC, b, bias=1 + 1j, pulse_shape=shape)
-            ctx.raises("errors", TypeError, D.DAC, b, Vout=[1.0], pulse_shape=shape)
-        ctx.raises("errors", ValueError, D.DAC, b, pulse_shape="gaussian", T=0)
-        ctx.raises("errors", ValueError, D.DAC, b, pulse_shape="gaussian", T=-int(rng.integers(1, 10)))
-        ctx.raises("errors", ValueError, D.DAC, b, pulse_shape="gaussian", T=2 * sps + int(rng.integers(1, 50)))
-        ctx.raises("errors", TypeError, D.DAC, b, pulse_shape="gaussian", T=8.5)
-        ctx.raises("errors", TypeError, D.DAC, b, pulse_shape="gaussian", T=float(sps))
-        ctx.raises("errors", ValueError, D.DAC, b, pulse_shape="gaussian", m=0)
-        ctx.raises("errors", ValueError, D.DAC, b, pulse_shape="gaussian", m=-2)
-        ctx.raises("errors", TypeError, D.DAC, b, pulse_shape="gaussian", m=1.5)
-        ctx.raises("errors", TypeError, D.DAC, b, pulse_shape="gaussian", c=1 + 1j)
-        ctx.raises("errors", TypeError, D.DAC, b, pulse_shape="gaussian", c="0")
-        ctx.raises("errors", ValueError, D.DAC, b, pulse_shape=str(rng.choice(["triangle", "sinc", "", "nrzz", "gauss"])))
-        # values just inside the range are accepted
-        x = D.DAC(b, Vout=47.999, bias=-47.999)
-        ctx.check("errors", x.len() == 4 * sps, "in-range Vout/bias rejected or wrong length")
-    ctx.case(("err", sps, i % 2, big), sample={"sps": sps, "out_of_range": big} if i < 2 else None)
+        for shape in ("nrz", "rz", "gaussian", "NRZ", "RZ", "GAUSSIAN", "rect"):
+            ctx.raises("errors", ValueError, D.DAC, b(), Vout=big, pulse_shape=shape, **ctxargs(shape, ("Vout",)))
+            ctx.raises("errors", ValueError, D.DAC, b(), bias=big, pulse_shape=shape, **ctxargs(shape, ("bias",)))
+            ctx.raises("errors", TypeError, D.DAC, b(), Vout="5", pulse_shape=shape, **ctxargs(shape, ("Vout",)))
+            ctx.raises("errors", TypeError, D.DAC, b(), bias=1 + 1j, pulse_shape=shape, **ctxargs(shape, ("bias",)))
+            ctx.raises("errors", TypeError, D.DAC, b(), Vout=[1.0], pulse_shape=shape, **ctxargs(shape, ("Vout",)))
+            ctx.raises("errors", TypeError, D.DAC, b(), Vout=2 + 0j, pulse_shape=shape, **ctxargs(shape, ("Vout",)))
+            ctx.raises("errors", TypeError, D.DAC, b(), bias="0", pulse_shape=shape, **ctxargs(shape, ("bias",)))
+        for shape in ("gaussian", "GAUSSIAN"):
+            ctx.raises("errors", ValueError, D.DAC, b(), pulse_shape=shape, T=0, **ctxargs(shape, ("T",)))
+            ctx.raises("errors", ValueError, D.DAC, b(), pulse_shape=shape, T=-int(rng.integers(1, 10)), **ctxargs(shape, ("T",)))
+            ctx.raises("errors", ValueError, D.DAC, b(), pulse_shape=shape, T=2 * sps + int(rng.integers(1, 50)), **ctxargs(shape, ("T",)))
+            ctx.raises("errors", TypeError, D.DAC, b(), pulse_shape=shape, T=8.5, **ctxargs(shape, ("T",)))
+            ctx.raises("errors", TypeError, D.DAC, b(), pulse_shape=shape, T=float(sps), **ctxargs(shape, ("T",)))
+            ctx.raises("errors", ValueError, D.DAC, b(), pulse_shape=shape, m=0, **ctxargs(shape, ("m",)))
+            ctx.raises("errors", ValueError, D.DAC, b(), pulse_shape=shape, m=-2, **ctxargs(shape, ("m",)))
+            ctx.raises("errors", TypeError, D.DAC, b(), pulse_shape=shape, m=1.5, **ctxargs(shape, ("m",)))
+            ctx.raises("errors", TypeError, D.DAC, b(), pulse_shape=shape, c=1 + 1j, **ctxargs(shape, ("c",)))
+            ctx.raises("errors", TypeError, D.DAC, b(), pulse_shape=shape, c="0", **ctxargs(shape, ("c",)))
+        ctx.raises("errors", ValueError, D.DAC, b(), pulse_shape=str(rng.choice(["triangle", "sinc", "", "nrzz", "gauss"])), **ctxargs("nrz"))
+        # values just inside the range are accepted, whatever the container
+        arg = b()
+        x = D.DAC(arg, Vout=47.999, bias=-47.999)
+        ctx.check("errors", x.len() == bits_of(arg).size * sps, "in-range Vout/bias rejected or wrong length")
+    for f in used:
+        ctx.bin("errors.form", f)
+    ctx.case(("err", sps, i % 8, big), sample={"sps": sps, "out_of_range": big} if i < 2 else None)
 
 
 def w_two_grids(ctx, rng, i):
